@@ -21,6 +21,10 @@ inductive Value where
   | bool (b : Bool)
   | text (s : List Nat)
   | rat (n : Int) (d : Nat)
+  /-- a DOUBLE column value.  Such values are stored, compared and shown, never computed with: `k` is the order key
+      of the IEEE-754 bit pattern (the bits of a non-negative double; minus the bits without the sign of a negative
+      one), so that comparing keys as integers is comparing the doubles.  No floating-point operation is modelled. -/
+  | dbl (k : Int)
   deriving DecidableEq, Repr, Inhabited
 
 abbrev Row := List Value
@@ -28,7 +32,7 @@ abbrev Table := List Row
 
 /-- Declared column types of the fragment (INT = 32 bit, BIGINT = 64 bit). -/
 inductive Ty where
-  | int | bigint | bool | text
+  | int | bigint | bool | text | double
   deriving DecidableEq, Repr, Inhabited
 
 inductive Err where
@@ -120,7 +124,7 @@ def cmpText : List Nat → List Nat → Ordering
 
 /-- category of a non-NULL value (values of different categories are never compared by well-typed queries) -/
 def Value.rank : Value → Nat
-  | .bool _ => 0 | .int _ => 1 | .text _ => 2 | .rat _ _ => 3 | .null => 4
+  | .bool _ => 0 | .int _ => 1 | .text _ => 2 | .rat _ _ => 3 | .null => 4 | .dbl _ => 5
 
 /-- total order on non-NULL values; NULL is handled by the callers.
     (`rat` values are results of AVG and are never compared by the modelled grammar: they get a structural order.) -/
@@ -129,6 +133,7 @@ def Value.cmp : Value → Value → Ordering
   | .bool a, .bool b => cmpNat a.toNat b.toNat
   | .text a, .text b => cmpText a b
   | .rat a d, .rat b e => lexOrd (cmpInt a b) (cmpNat d e)
+  | .dbl a, .dbl b => cmpInt a b
   | a, b => cmpNat a.rank b.rank
 
 inductive CmpOp where
@@ -490,6 +495,7 @@ def inferTyO (tys : List Ty) : Expr → Option Ty
   | .lit (.int v) => some (if fitsI32 v then .int else .bigint)
   | .lit (.text _) => some .text
   | .lit (.bool _) => some .bool
+  | .lit (.dbl _) => some .double
   | .lit _ => none
   | .col i => some (tys.getD i .bigint)
   | .neg e => inferTyO tys e
@@ -527,6 +533,9 @@ def castTo (ty : Ty) : Value → Except Err Value
     | .text => .ok (.text s)
     | _ => .error .type
   | .rat n d => .ok (.rat n d)
+  | .dbl k => match ty with
+    | .double => .ok (.dbl k)
+    | _ => .error .type
 
 /-! ## Relational operators (pure parts: these are what the theorems are about) -/
 
@@ -1005,7 +1014,7 @@ data.  (The engine finds it when the comparison meets two non-NULL values; gener
 
 /-- category of a type: numbers, texts, booleans -/
 def Ty.cat : Ty → Nat
-  | .int | .bigint => 0
+  | .int | .bigint | .double => 0
   | .text => 1
   | .bool => 2
 
